@@ -63,7 +63,8 @@ func DumpIDL(ast *parser.Thrift) (string, error) {
 
 	for _, td := range ast.Typedefs {
 		printComment(&sb, td.ReservedComments, "")
-		sb.writeString(fmt.Sprintf("typedef %s", typeName(td.Type)))
+		sb.writeString("typedef ")
+		printType(&sb, td.Type)
 		sb.writeString(" " + td.Alias + " ")
 		printAnnotation(&sb, td.Annotations)
 		sb.writeString("\n")
@@ -75,7 +76,9 @@ func DumpIDL(ast *parser.Thrift) (string, error) {
 
 	for _, c := range ast.Constants {
 		printComment(&sb, c.ReservedComments, "")
-		sb.writeString(fmt.Sprintf("const %s %s = ", typeName(c.Type), c.Name))
+		sb.writeString("const ")
+		printType(&sb, c.Type)
+		sb.writeString(fmt.Sprintf(" %s = ", c.Name))
 		ctv := c.Value.TypedValue
 		printConstTypedValue(&sb, ctv)
 		printAnnotation(&sb, c.Annotations)
@@ -145,7 +148,8 @@ func DumpIDL(ast *parser.Thrift) (string, error) {
 			if f.Oneway {
 				sb.writeString("oneway ")
 			}
-			sb.writeString(fmt.Sprintf("%s %s", typeName(f.FunctionType), f.Name))
+			printType(&sb, f.FunctionType)
+			sb.writeString(" " + f.Name)
 			sb.writeString("(")
 			for i, ag := range f.Arguments {
 				required := ""
@@ -154,7 +158,9 @@ func DumpIDL(ast *parser.Thrift) (string, error) {
 				} else if ag.Requiredness.IsRequired() {
 					required = "required "
 				}
-				sb.writeString(fmt.Sprintf("%d: %s%s %s", ag.ID, required, typeName(ag.Type), ag.Name))
+				sb.writeString(fmt.Sprintf("%d: %s", ag.ID, required))
+				printType(&sb, ag.Type)
+				sb.writeString(" " + ag.Name)
 				if ag.Default != nil {
 					sb.writeString(" = ")
 					printConstTypedValue(&sb, ag.Default.TypedValue)
@@ -175,7 +181,9 @@ func DumpIDL(ast *parser.Thrift) (string, error) {
 					} else if th.Requiredness.IsRequired() {
 						required = "required "
 					}
-					sb.writeString(fmt.Sprintf("%d: %s%s %s", th.ID, required, typeName(th.Type), th.Name))
+					sb.writeString(fmt.Sprintf("%d: %s", th.ID, required))
+					printType(&sb, th.Type)
+					sb.writeString(" " + th.Name)
 					if th.Default != nil {
 						sb.writeString(" = ")
 						printConstTypedValue(&sb, th.Default.TypedValue)
@@ -206,46 +214,89 @@ func DumpIDL(ast *parser.Thrift) (string, error) {
 	return html.UnescapeString(outString), nil
 }
 
-func typeName(t *parser.Type) string {
+func printType(sb *stringBuilder, t *parser.Type) {
 	if t == nil {
-		return ""
+		return
 	}
 
-	// the result is written through the caller's stringBuilder, which does the escaping
-	sb := stringBuilder{raw: true}
-	cppType := ""
-	if t.CppType != "" {
-		cppType = " cpp_type " + strings.ReplaceAll(joinQuotes(t.CppType), `"`, "##34;") + " "
+	sb.writeString(t.Name)
+	if t.CppType != "" && t.Name != "list" {
+		sb.writeString(" cpp_type ")
+		sb.writeLiteral(t.CppType)
+		sb.writeString(" ")
 	}
-	name := t.Name
 	if t.KeyType != nil && t.ValueType != nil {
-		name = fmt.Sprintf("%s%s<%s,%s>", t.Name, cppType, typeName(t.KeyType), typeName(t.ValueType))
+		sb.writeString("<")
+		printType(sb, t.KeyType)
+		sb.writeString(",")
+		printType(sb, t.ValueType)
+		sb.writeString(">")
 	} else if t.ValueType != nil && t.KeyType == nil {
-		if t.Name == "list" {
-			name = fmt.Sprintf("%s<%s>%s", t.Name, typeName(t.ValueType), cppType)
-		} else {
-			name = fmt.Sprintf("%s%s<%s>", t.Name, cppType, typeName(t.ValueType))
-		}
+		sb.writeString("<")
+		printType(sb, t.ValueType)
+		sb.writeString(">")
 	}
-
-	if t.Annotations != nil {
-		printAnnotation(&sb, t.Annotations)
-		name = name + sb.String()
+	if t.CppType != "" && t.Name == "list" {
+		sb.writeString(" cpp_type ")
+		sb.writeLiteral(t.CppType)
+		sb.writeString(" ")
 	}
-	return name
+	printAnnotation(sb, t.Annotations)
 }
 
 type stringBuilder struct {
 	buffer strings.Builder
-	raw    bool
 }
 
 func (s *stringBuilder) writeString(str string) {
-	if !s.raw && strings.Contains(str, "&") {
+	if strings.Contains(str, "&") {
 		// 将 & 转义为 &amp;
 		str = strings.ReplaceAll(str, "&", "&amp;")
 	}
 	s.buffer.WriteString(str)
+}
+
+// writeLiteral writes str as a quoted literal that the parser reads back as exactly str.
+// Quotes, backslashes, '&' and '#' are written as HTML character references, which the
+// final html.UnescapeString restores and which none of the substitutions before it touch.
+func (s *stringBuilder) writeLiteral(str string) {
+	// The parser drops the backslash of an escaped quote only for the kind of quote that
+	// encloses the literal, so a quote that keeps its backslash (an odd number of backslashes
+	// before it) must be enclosed by the other kind.
+	quote := byte('"')
+	for i, run := 0, 0; i < len(str); i++ {
+		if str[i] == '\\' {
+			run++
+			continue
+		}
+		if str[i] == '"' && run%2 == 1 {
+			quote = '\''
+		}
+		run = 0
+	}
+	ref := func(c byte) {
+		s.buffer.WriteString(fmt.Sprintf("&#%d;", c))
+	}
+	ref(quote)
+	run := 0
+	for i := 0; i < len(str); i++ {
+		c := str[i]
+		if c == quote && run%2 == 0 {
+			ref('\\')
+		}
+		switch c {
+		case '"', '\'', '\\', '&', '#':
+			ref(c)
+		default:
+			s.buffer.WriteByte(c)
+		}
+		if c == '\\' {
+			run++
+		} else {
+			run = 0
+		}
+	}
+	ref(quote)
 }
 
 func (s *stringBuilder) String() string {
@@ -268,9 +319,8 @@ func printAnnotation(sb *stringBuilder, a parser.Annotations) {
 	sb.writeString("(")
 	for i, anno := range a {
 		for ii, v := range anno.Values {
-			val := strings.ReplaceAll(joinQuotes(v), `"`, "##34;")
-
-			sb.writeString(fmt.Sprintf("%s = %s", anno.Key, val))
+			sb.writeString(anno.Key + " = ")
+			sb.writeLiteral(v)
 			if i != len(a)-1 || ii != len(anno.Values)-1 {
 				sb.writeString(", ")
 			}
@@ -297,7 +347,8 @@ func printStruct(sb *stringBuilder, s *parser.StructLike, structType string) {
 		} else if f.Requiredness.IsRequired() {
 			required = "required "
 		}
-		sb.writeString(fmt.Sprintf("    %d: %s%s", f.ID, required, typeName(f.Type)))
+		sb.writeString(fmt.Sprintf("    %d: %s", f.ID, required))
+		printType(sb, f.Type)
 		sb.writeString(fmt.Sprintf(" %s", f.Name))
 
 		if f.Default != nil {
@@ -319,9 +370,7 @@ func printConstTypedValue(sb *stringBuilder, ctv *parser.ConstTypedValue) {
 	} else if ctv.Int != nil {
 		sb.writeString(fmt.Sprintf("%d", *ctv.Int))
 	} else if ctv.Literal != nil {
-		val := *ctv.Literal
-		val = strings.ReplaceAll(joinQuotes(val), `"`, "##34;")
-		sb.writeString(fmt.Sprintf("%s", val))
+		sb.writeLiteral(*ctv.Literal)
 	} else if ctv.Identifier != nil {
 		sb.writeString(fmt.Sprintf("%s", *ctv.Identifier))
 	} else if ctv.IsSetList() {
